@@ -160,3 +160,7 @@ pub trait ServerSocket {
         to: Self::Addr,
     ) -> impl Future<Output = Result<(), Self::Error>>;
 }
+
+#[cfg(all(test, pendulum_project_ntpd_rs_verif))]
+#[path = "/verif/harness/statime-csptp/hook_server.rs"]
+mod verif_hook;
